@@ -32,7 +32,13 @@ def select_harnesses(all_h, prop, tier, extra=None):
     return out
 
 
+GLOBAL_BACKENDS = [(r'^c04_labels$|^c04_lea_label$', ['sat', 'z3']), (r'^c04_memory_addr$', [('z3', 'cvc5'), 'sat-arrays'])]
+
+
 def backend_chain(name, cfg, tier):
+    for pat, chain in GLOBAL_BACKENDS:
+        if re.search(pat, name):
+            return chain
     for pat, chain in cfg.get('backends', []):
         if re.search(pat, name):
             return chain
